@@ -637,6 +637,12 @@ def _mix_full(Jf, p, d):
     return (1 - p) * Jf + p * np.eye(d * d) / d
 
 
+def _as_given(J):
+    """a real-valued Choi matrix is handed over with a real dtype (as a user would), a complex one as complex128"""
+    J = np.asarray(J)
+    return J.real.copy() if np.iscomplexobj(J) and not np.any(J.imag) else J
+
+
 def work_cf(task, res: Result):
     from toqito.channel_metrics import channel_fidelity
     warnings.filterwarnings("ignore")
@@ -663,7 +669,7 @@ def work_cf(task, res: Result):
         res.violation("certified lower bound above certified upper bound (checker or harness unsound)", {"function": "cf_bracket", "args": desc, "certified": [lo, hi], "theorem": "cf_bracket"})
         return
     choi_fid = root_fidelity(J1 / d, J2 / d)
-    st, v = _call(channel_fidelity, J1, J2)
+    st, v = _call(channel_fidelity, _as_given(J1), _as_given(J2))
     nontriv = hi is not None and hi <= 1 - 1e-2 and (lo is None or lo >= 1e-2)
     res.case(desc, nontriv, f"cf/{desc['kind']}/{'-'.join(task['kinds'])}/d{d}/{st}")
     if st == "numfail":
@@ -689,7 +695,7 @@ def work_cf(task, res: Result):
     if hi is not None and lo is not None and lo > choi_fid + CLOSED:
         res.violation("certified channel fidelity exceeds the Choi-state fidelity (harness error)", {"function": "choi_fidelity", "args": desc, "certified": [lo, hi], "choi_fidelity": choi_fid})
     # symmetry (chanFid_symm)
-    st2, v2 = _call(channel_fidelity, J2, J1)
+    st2, v2 = _call(channel_fidelity, _as_given(J2), _as_given(J1))
     if st2 == "ok":
         res.count("relation/cf-symmetry")
         if abs(v - v2) > 2 * TAU_CF:
@@ -779,6 +785,17 @@ def run(ctx, model_ok=True):
         t["self"] = False
         t["full"] = True
         cf_tasks.insert(0, t)
+    # mixed dtypes in both argument orders: a real Choi matrix (identity channel, real rotation, dephasing-type mixture of
+    # real unitaries) against a genuinely complex one
+    for i in range(4 if quick else 24):
+        d = 2 if i % 3 else 3
+        th = [0.0, 0.6435011087932844, 0.9272952180016122][i % 3]          # angles with rational sin/cos (3-4-5 triangles)
+        R = np.eye(d, dtype=complex)
+        R[:2, :2] = np.array([[np.cos(th), -np.sin(th)], [np.sin(th), np.cos(th)]])
+        U = np.diag(np.exp(1j * np.pi * np.array([0, 0.5, 0.25][:d]) * (1 + i % 2))).astype(complex)
+        t = {"d": d, "id": 2000 + i, "K1": [R.real.astype(float)], "K2": [qgen.cayley_unitary(rng, d, True, lim=2) if i % 2 else U],
+             "kinds": ["real-unitary", "complex-unitary"], "full": False, "p1": 0.25, "p2": 0.25}
+        cf_tasks.insert(0, t)
     run_pool(ctx, work_cf, cf_tasks)
     run_pool(ctx, work_cf_dim, [{"d": 5}] + ([] if quick else [{"d": 6}]))
     fos = []
@@ -787,6 +804,8 @@ def run(ctx, model_ok=True):
         vecs = [qgen.unit(qgen.int_vector(rng, dd, True, lim=3)) for dd in dims]
         fos.append({"vecs": vecs, "dims": dims, "k": 2})
     fos.append({"vecs": [qgen.unit(qgen.int_vector(rng, 2, True, lim=3)) for _ in range(3)], "dims": [2, 2, 2], "k": 1})
+    for dims, k in [[[3, 2, 2], 2], [[2, 2, 3], 2], [[2, 3, 2], 1]] + ([] if quick else [[[3, 2, 2], 2], [[2, 3, 3], 1], [[2, 2, 3], 2]]):
+        fos.append({"vecs": [qgen.unit(qgen.int_vector(rng, dd, True, lim=3)) for dd in dims], "dims": dims, "k": k})   # unequal local dimensions
     run_pool(ctx, work_fos, fos)
     ctx.extra["tolerances"] = {"cb": TAU_CB, "channel_fidelity": TAU_CF, "closed_forms": CLOSED}
     ctx.extra["certified_interval_width_bound"] = WIDTH_OK
@@ -810,7 +829,7 @@ def replay(ctx, rec):
     drv = ctx.lean()
     if fn == "channel_fidelity" and "J1" in a:
         J1, J2 = _arr(a["J1"]), _arr(a["J2"])
-        st, v = _call(channel_fidelity, J1, J2)
+        st, v = _call(channel_fidelity, _as_given(J1), _as_given(J2))
         lo = hi = None
         try:
             sol = solve_cf_ref(J1, J2, d, d, primal=a.get("kind") == "full-rank")
